@@ -123,7 +123,7 @@ package mux
 // iteration hands its permit to the new session, the ping-failure branch closes the session and the connection
 // it created, and the loop gives up only when the lifetime has ended.
 //@ contract (*muxProvider).Start$2
-//@   shape sig=()();loops=for0;lits=1;fv=m.addNewMux,m.sessionFn
+//@   shape sig=()();loops=for0;lits=1;fv=m.addNewMux,m.sessionFn;outerlits=3
 //@   props C10
 //@   requires m != nil && m.muxPermits != nil && m.muxPermits.held == 0
 //@   ensures @exit_only_on_shutdown: m.lifetime.Err() != nil
@@ -145,7 +145,7 @@ package mux
 
 // When a session ends it is unregistered and its slot is given back (one permit).
 //@ contract (*multiMuxManager).AddConnection$1
-//@   shape sig=()();loops=;lits=0;fv=
+//@   shape sig=()();loops=;lits=0;fv=;outerlits=1
 //@   props C10
 //@   requires m != nil && m.muxes != nil
 //@   callpre unregisterMux: @own_id: $id == newId
@@ -182,7 +182,7 @@ package mux
 //@   ensures result != nil && !result.closed
 //@   assigns nothing
 //@ contract (*establishingConnProvider).NewConnection$1
-//@   shape sig=()( error);loops=;lits=0;fv=p.tlsWrapper
+//@   shape sig=()( error);loops=;lits=0;fv=p.tlsWrapper;outerlits=2
 //@   props C10
 //@   requires p != nil
 //@   ensures @dialled_or_error: (result == nil) == (client != nil)
